@@ -250,4 +250,63 @@ def unify (E : Env) : Nat → Tm → Tm → Subst → Res
   | 0 => fun _ _ _ => .oof
   | f + 1 => unifyStep E (unify E f) (occurs f)
 
+/-! ### generic function values: `FunctionType.unquantified` and `check_type_against` (parametrised case)
+
+    `check_type_against(act, exp)` for `act = forall params. body`: instantiate the params with fresh
+    existential variables, `unify(exp, unquantified, {})`, `resolve_subst`, then every fresh variable must be
+    solved (`CantInferParam`) by a solution without variables (`CantInstantiateFreeVars`); returns the
+    instantiation and the solutions of the variables of `exp`.  `check_inst` (bounds of the params) and nested
+    generic function types (`Instantiator` raises "under binder") are not modelled. -/
+
+mutual
+/-- `Instantiator(ρ)`: bound variable `i` ↦ `ρ[i]`; indices beyond `ρ` are lowered -/
+def instB (ρ : List Tm) : Tm → Tm
+  | .var v => .var v
+  | .atom (.bvar i) => if h : i < ρ.length then ρ[i] else .atom (.bvar (i - ρ.length))
+  | .atom (.cbvar i) => if h : i < ρ.length then ρ[i] else .atom (.cbvar (i - ρ.length))
+  | .atom a => .atom a
+  | .node h as => .node h (instBList ρ as)
+  | .targ t => .targ (instB ρ t)
+  | .carg c => .carg (instB ρ c)
+def instBList (ρ : List Tm) : List Tm → List Tm
+  | [] => []
+  | a :: as => instB ρ a :: instBList ρ as
+end
+
+/-- `resolve_subst`: every solution with the substitution applied exhaustively -/
+def resolve (σ : Subst) : Subst := σ.map fun p => (p.1, applyStar σ p.2)
+
+inductive CallRes where
+  | oof
+  | mismatch                                  -- TypeMismatchError (unify returned None)
+  | cantInfer (i : Nat)                       -- TypeMismatchError + CantInferParam(param i)
+  | freeVars (i : Nat)                        -- TypeMismatchError + CantInstantiateFreeVars(param i)
+  | ok (inst : List Tm) (σ : Subst)
+  deriving Repr, Inhabited
+
+/-- the loop over `free_vars` -/
+def firstBad (σ : Subst) : Nat → List V → Option CallRes
+  | _, [] => none
+  | i, f :: fs =>
+    match lookup σ f with
+    | none => some (.cantInfer i)
+    | some u => if u.vars.isEmpty then firstBad σ (i + 1) fs else some (.freeVars i)
+
+/-- `check_type_against(act, exp)` for a parametrised `act`; `fresh` are the existential variables created by
+    `unquantified()` in parameter order, `p0` is the code of the empty parameter list -/
+def checkAgainst (E : Env) (fuel : Nat) (p0 : Nat) (exp : Tm) (fresh : List V) (act : Tm) : CallRes :=
+  match act with
+  | .node (.func fl _) args =>
+    match unify E fuel exp (.node (.func fl p0) (instBList (fresh.map .var) args)) [] with
+    | .oof => .oof
+    | .fail => .mismatch
+    | .ok σ =>
+      let σ' := resolve σ
+      match firstBad σ' 0 fresh with
+      | some r => r
+      | none =>
+        .ok (fresh.map fun f => match lookup σ' f with | some u => u | none => .var f)
+            (σ'.filter fun p => exp.vars.contains p.1)
+  | _ => .mismatch
+
 end GuppyVerif.Unify
